@@ -55,16 +55,10 @@ mod verif_c16_state {
     fn c16_tab_rewriter() {
         use std::fmt::Write;
         let mut out: Buf<16> = Buf::new();
-        {
-            let mut w = crate::style::verif_rig_style::tab_rewriter(&mut out, 3);
-            w.write_str("p\tq").unwrap();
-        }
+        crate::style::verif_rig_style::tab_rewrite(&mut out, 3, "p\tq").unwrap();
         assert!(str_is(out.as_str(), b"p   q"));
         let mut out0: Buf<16> = Buf::new();
-        {
-            let mut w = crate::style::verif_rig_style::tab_rewriter(&mut out0, 0);
-            w.write_str("p\tq").unwrap();
-        }
+        crate::style::verif_rig_style::tab_rewrite(&mut out0, 0, "p\tq").unwrap();
         assert!(str_is(out0.as_str(), b"pq"));
     }
 
